@@ -346,6 +346,14 @@ val digit_from_zeros : n list -> n -> n option
 
 val codec_from_table : (str * n) list -> str -> n
 
+val doc_immediate : str list
+
+val doc_behaviour : str list
+
+val doc_scopes : (str * str list) list
+
+val doc_scope_ok : str -> str -> bool
+
 val g_defaults : dict
 
 val g_types : (str * dtype) list
